@@ -13,6 +13,7 @@ def conditions(tier):
     # value side: leaves
     cs += [C(HF, "HexInt", "h_value_int", t=T), C(HF, "OneOf_SpacesHex", "h_value_int", t=T), C(HF, "IntSpaces", "h_value_int", t=T),
            C(HF, "OneOf_DictSpacesHex", "h_value_int", t=T), C(HF, "Dict", "h_value_int", t=T),
+           C(HF, "OneOf_HexDictUpper", "h_value_int", t=T),
            C(HF, "DecInt", "h_value_dec", t=T), C(HF, "Spaces_g", "h_value_run", t=T), C(HF, "Spaces_a", "h_value_run", t=T),
            C(HF, "Spaces_z", "h_value_run", t=T), C(HF, "Spaces_0", "h_value_run", t=T), C(HF, "Spaces_5", "h_value_run", t=T),
            C(HF, "Spaces_9", "h_value_run", t=T), C(HF, "OneOf_SpacesHex", "h_value_run", t=T), C(HF, "IntSpaces", "h_value_run", t=T),
